@@ -1,4 +1,5 @@
 import RlModel.Lemmas.Exec
+import RlModel.Lemmas.ExecNull
 import RlModel.Lemmas.ValOrderRel
 /-!
 C02 — query answers follow standard SQL semantics on the core relational subset.
@@ -345,13 +346,26 @@ theorem exec_refines_spec_count_distinct_unsound :
   have := h [.null]
   revert this; decide
 
-/-- hash join, full statement (false): `hashJoin` returns the bag of the spec's equi-join.
-Witness 1: NULL keys are matched.  Witness 2: Int32 1 and Int64 1 are not. -/
-theorem exec_refines_spec_hashjoin_null_key_unsound :
-    ¬ (flat (hashJoin .inner [fun r => r.getD 0 .null] [fun r => r.getD 0 .null] 1 1 [[[.null]]] [[[.null]]])).Perm
-      (joinRel .inner (equiOn 1 [fun r => r.getD 0 .null] [fun r => r.getD 0 .null] (fun _ => some true)) 1 1 [[.null]] [[.null]]) := by
-  decide
+/-- hash join (every type) refines the spec's equi-join under `KeysComparable`.  Since the `fix:`
+commit "a join key containing NULL never matches" NULL keys satisfy the hypothesis by themselves
+(`keysComparable_of_null_free`); what is left of it is the same-type requirement. -/
+theorem exec_refines_spec_hashjoin (t : JoinType) (ht : t = .inner ∨ t = .leftOuter ∨ t = .rightOuter ∨ t = .fullOuter)
+    (lk rk : List (Row → Val)) (nL nR : Nat) (Ls Rs : List Chunk)
+    (hlen : ∀ l ∈ flat Ls, l.length = nL) (hk : KeysComparable lk rk (flat Ls) (flat Rs)) :
+    (flat (hashJoin t lk rk nL nR Ls Rs)).Perm
+      (joinRel t (equiOn nL lk rk (fun _ => some true)) nL nR (flat Ls) (flat Rs)) :=
+  hash_eq_spec_partial t ht lk rk nL nR Ls Rs hlen hk
 
+/-- regression input (the witness of the former `…_hashjoin_null_key_unsound`): NULL keys are not
+joined any more; outer joins still emit the rows padded. -/
+theorem exec_refines_spec_hashjoin_null_key_regression :
+    (flat (hashJoin .inner [fun r => r.getD 0 .null] [fun r => r.getD 0 .null] 1 1 [[[.null]]] [[[.null]]])).Perm
+      (joinRel .inner (equiOn 1 [fun r => r.getD 0 .null] [fun r => r.getD 0 .null] (fun _ => some true)) 1 1 [[.null]] [[.null]]) ∧
+    (flat (hashJoin .fullOuter [fun r => r.getD 0 .null] [fun r => r.getD 0 .null] 1 1 [[[.null]]] [[[.null]]])).Perm
+      (joinRel .fullOuter (equiOn 1 [fun r => r.getD 0 .null] [fun r => r.getD 0 .null] (fun _ => some true)) 1 1 [[.null]] [[.null]]) := by
+  constructor <;> decide
+
+/-- full statement without the hypothesis (false): Int32 1 and Int64 1 are SQL-equal, never joined. -/
 theorem exec_refines_spec_hashjoin_int_width_unsound :
     ¬ (flat (hashJoin .inner [fun r => r.getD 0 .null] [fun r => r.getD 0 .null] 1 1 [[[.i32 1]]] [[[.i64 1]]])).Perm
       (joinRel .inner (equiOn 1 [fun r => r.getD 0 .null] [fun r => r.getD 0 .null] (fun _ => some true)) 1 1 [[.i32 1]] [[.i64 1]]) := by
